@@ -142,7 +142,7 @@ impl Checker for C19 {
             }
         }
         // ---- nothing is left behind in the dispatcher
-        for d in [USEI, KUSD, UATOM] {
+        for d in [USEI, KUSD, UATOM, UIBC] {
             if o1.bank_of(DISP, d) != 0 {
                 out.fail(v("coins-left-in-dispatcher", format!("{}: {} {} left on the dispatcher", step.desc(), o1.bank_of(DISP, d), d)));
                 return;
@@ -151,7 +151,7 @@ impl Checker for C19 {
         // ---- what was available: dispatcher balances + the hub's pending rewards (paid to the withdraw address)
         let pend = |denom: &str| -> u128 { cx.pre.rewards.iter().filter(|((d, _, dn), _)| d == HUB && dn == denom).map(|(_, a)| *a).sum() };
         let avail_st = o0.bank_of(DISP, USEI) + pend(USEI);
-        let avail_b = o0.bank_of(DISP, KUSD) + pend(KUSD) + o0.bank_of(DISP, UATOM) + pend(UATOM);
+        let avail_b = o0.bank_of(DISP, KUSD) + pend(KUSD) + o0.bank_of(DISP, UATOM) + pend(UATOM) + o0.bank_of(DISP, UIBC) + pend(UIBC);
         // ---- re-bond: booked stSei grows by exactly the coins attached to BondRewards = its delegations
         let mut attached = 0u128;
         for (s, m, f) in execs_to(evs, HUB) {
